@@ -4,6 +4,7 @@ package main
 // trees, sequences and filters, with oracles over the recorded event log.
 
 import (
+	"context"
 	"fmt"
 	"os"
 	"os/exec"
@@ -64,6 +65,19 @@ func scenFold(out *scenOut, r *rng, thorough bool) {
 		runs = 200
 	}
 	defer runtime.GOMAXPROCS(runtime.GOMAXPROCS(0))
+	// a message whose Send completed before termination began reaches Update,
+	// even when the termination strikes right behind it
+	for _, cause := range []string{"kill", "ctx", "quit"} {
+		for _, slow := range []string{"filter", "none"} {
+			reps := 6
+			if thorough {
+				reps = 40
+			}
+			for i := 0; i < reps; i++ {
+				sendThenEnd(out, cause, slow, i)
+			}
+		}
+	}
 	for i := 0; i < runs; i++ {
 		procs := []int{1, 2, 16}[i%3]
 		runtime.GOMAXPROCS(procs)
@@ -72,6 +86,41 @@ func scenFold(out *scenOut, r *rng, thorough bool) {
 		rr := r.fork()
 		desc := fmt.Sprintf("senders=%d msgs=%d procs=%d", ns, nm, procs)
 		foldOnce(out, rr, ns, nm, desc)
+	}
+}
+
+func sendThenEnd(out *scenOut, cause, slow string, idx int) {
+	ctl := newRecCtl()
+	parent, cancel := context.WithCancel(context.Background())
+	defer cancel()
+	opts := []tea.ProgramOption{tea.WithInput(nil), tea.WithoutSignalHandler(), tea.WithContext(parent)}
+	if slow == "filter" {
+		opts = append(opts, loggingFilter(ctl, func(name string, m tea.Msg) tea.Msg {
+			if strings.HasPrefix(name, "u3.") {
+				time.Sleep(2 * time.Millisecond) // termination lands between the receive and Update
+			}
+			return m
+		}))
+	}
+	run := startProgram(ctl, nil, opts...)
+	desc := fmt.Sprintf("send-then-%s slow=%s #%d", cause, slow, idx)
+	run.p.Send(userMsg{3, idx}) // returns: the event loop has taken the message
+	switch cause {
+	case "kill":
+		run.p.Kill()
+	case "ctx":
+		cancel()
+	case "quit":
+		run.p.Quit()
+	}
+	if !run.wait(5 * time.Second) {
+		out.fail(finding{Property: "C01", Class: "new", What: "Run did not return", Input: desc, Observed: goroutineDump()})
+		return
+	}
+	out.record(fmt.Sprintf("send-then-%s/%s", cause, slow), desc)
+	if n := ctl.log.count("update-enter", fmt.Sprintf("u3.%d ", idx)); n != 1 {
+		out.fail(finding{Property: "C01", Class: "new", What: "a message whose Send completed before the program began terminating did not reach Update exactly once",
+			Input: desc, Expected: "1 Update", Observed: fmt.Sprintf("%d", n)})
 	}
 }
 
